@@ -23,6 +23,8 @@ PlainAtoms == {
     [A("ftime") EXCEPT !.lo = 1, !.hi = 2], [A("ltime") EXCEPT !.lo = 4, !.hi = -1],
     [A("ltime") EXCEPT !.lo = 6, !.hi = -1], [A("ltime") EXCEPT !.lo = 0, !.hi = 1], [A("ftime") EXCEPT !.lo = 3, !.hi = -1],
     [A("fteq") EXCEPT !.n = 2], A("protoself"),
+    \* 71 separate ids (every second number from 960 to 1100): more alternatives than fit into one 64-bit word
+    [A("idlist") EXCEPT !.s = [i \in 1 .. 71 |-> 958 + 2 * i]],
     [A("dur") EXCEPT !.tok = "ge", !.n = 2], [A("dur") EXCEPT !.tok = "le", !.n = 3],
     \* arithmetic on the stream's own fields (odd constants: the normaliser divides by the common factor of the variables)
     Lin("id", "ge", 7, <<-1>>), Lin("id", "le", 9, <<-1>>), Lin("id", "ge", 10, <<-2>>), Lin("sport", "ge", 161, <<0, 0, -1>>),
